@@ -837,7 +837,7 @@ fn scale(tier: Tier, totals: &mut Totals) {
                 _ => format!("{} = is_set ${{{}}}\n", out, var),
             }
         };
-        for depth in [3usize, 4] {
+        for depth in tier.pick(vec![3usize], vec![3usize, 4]) {
             let mut combos: Vec<Vec<&str>> = vec![vec![]];
             for _ in 0..depth {
                 combos = combos.into_iter().flat_map(|c| kinds.iter().map(move |k| { let mut n = c.clone(); n.push(*k); n })).collect();
